@@ -166,6 +166,76 @@ def run_perm(ctx, ast, rng):
                                                      "permutation_invariant": ok})
 
 
+def run_long(ctx, rng):
+    """Long products (16..22 distinct factors) in structured orders, and pairs of sums whose long inner products share
+    their first factors: object-level presentations of one product must have one canonical form."""
+    from y0.dsl import P, Product, Sum, Variable
+    from y0.mutate import canonicalize
+
+    names = rng.sample([n for n in ge.NAMES if n.isidentifier()], 7)
+    V = [Variable(n) for n in names]
+    pool = []
+    for i, c in enumerate(V):
+        others = [x for x in V if x != c]
+        for k in (0, 1, 2, 3):
+            for _ in range(2):
+                pa = tuple(sorted(rng.sample(others, k), key=str))
+                pool.append(P(c | pa) if pa else P(c))
+    atoms = list(dict.fromkeys(pool))
+    rng.shuffle(atoms)
+    atoms = atoms[: rng.randint(16, 22)]
+    if len(atoms) < 16:
+        return
+    base = canonicalize(Product(tuple(atoms)))
+    srt = list(base.expressions) if isinstance(base, Product) else [base]
+    pairs = [srt[i:i + 2] for i in range(0, len(srt), 2)]
+    rng.shuffle(pairs)
+    half = len(srt) // 2
+    arrangements = {
+        "reversed": srt[::-1],
+        "pair-blocks": [x for p_ in pairs for x in p_],
+        "rotated": srt[2:] + srt[:2],
+        "interleaved": [x for ab in zip(srt[:half], srt[half:]) for x in ab] + srt[2 * half:],
+        "swapped-ends": [srt[-1]] + srt[1:-1] + [srt[0]],
+    }
+    kernel.LOG.reset_case({"long_product": [str(a) for a in srt]})
+    for name, arr in arrangements.items():
+        forms = {"flat": Product(tuple(arr)),
+                 "nested": Product((Product(tuple(arr[:3])), Product(tuple(arr[3:])))),
+                 "under-sum": None}
+        for fname, e in forms.items():
+            if e is None:
+                continue
+            kernel.count("C11:long-product-presentations")
+            try:
+                c2 = canonicalize(e)
+            except Exception as ex:  # noqa: BLE001
+                kernel.violation(PROP, "permutation-invariant", f"canonicalising a {len(arr)}-factor product ({name}, {fname}) "
+                                 f"raised {type(ex).__name__}: {ex}", case={"expr": ge.to_src(e)})
+                continue
+            if c2 != base or str(c2) != str(base):
+                kernel.violation(PROP, "permutation-invariant", f"a product of {len(arr)} factors written in {name} order "
+                                 f"({fname}) canonicalises to {str(c2)[:300]} but in another order to {str(base)[:300]}",
+                                 case={"expr": ge.to_src(e), "perm": ge.to_src(Product(tuple(srt)))})
+                break
+    # two sums over one range whose inner products share their first five factors (in canonical order) and differ later
+    if len(srt) >= 8:
+        r = Variable(names[0])
+        in1, in2 = srt[:5] + [srt[5]], srt[:5] + [srt[6]]
+        s1, s2 = Sum(Product(tuple(in1)), frozenset([r])), Sum(Product(tuple(in2)), frozenset([r]))
+        extra = srt[7]
+        kernel.count("C11:long-sum-pairs")
+        try:
+            c_a, c_b = canonicalize(Product((s1, s2, extra))), canonicalize(Product((extra, s2, s1)))
+            if c_a != c_b or str(c_a) != str(c_b):
+                kernel.violation(PROP, "permutation-invariant", f"two sums with long inner products: canon(S1*S2*x) = "
+                                 f"{str(c_a)[:300]} but canon(x*S2*S1) = {str(c_b)[:300]}",
+                                 case={"expr": ge.to_src(Product((s1, s2, extra))), "perm": ge.to_src(Product((extra, s2, s1)))})
+        except Exception as ex:  # noqa: BLE001
+            kernel.count(f"C11:long-sum-pairs-raised-{type(ex).__name__}")
+    ctx.case("long|" + "|".join(str(a) for a in srt)[:400], True, sample={"factors": len(srt)})
+
+
 def corpus(seed, n):
     """The seeded corpus of the hash-seed sweep: independent of PYTHONHASHSEED by construction
     (string-seeded RNG, list-based ASTs)."""
@@ -229,6 +299,8 @@ def run_shard(ctx):
     for i in range(n):
         ast = targeted(rng) if i % 5 == 0 else ge.rand_expr_ast(rng, OPTS, max_depth=4)
         run_perm(ctx, ast, rng)
+    for _ in range(ctx.share({"quick": 320, "thorough": 6000}[ctx.tier])):
+        run_long(ctx, rng)
     if ctx.shard < {"quick": 2, "thorough": 8}[ctx.tier]:
         sweep(ctx, {"quick": 1500, "thorough": 8000}[ctx.tier])
 
